@@ -122,6 +122,38 @@ def covering_vectors(rnd, ver):
     return out
 
 
+def extremal_vectors(rnd, ver):
+    """boundary inputs: the shortest and the longest spellings a version admits (all metrics written with their longest /
+    shortest values, optional metrics all Not Defined, ...), in canonical and in shuffled order"""
+    out = []
+    for pick in (max, min):
+        for optional in ("all", "nd", "none"):
+            g = {}
+            for m in ORDER[ver]:
+                vals = [v for v in VALS[ver][m]]
+                if m in MAND[ver]:
+                    g[m] = pick(vals, key=len)
+                elif optional == "all":
+                    g[m] = pick([v for v in vals if v != ND[ver]] + ([ND[ver]] if pick is max and len(ND[ver]) >= max(len(v) for v in vals) else []), key=len)
+                elif optional == "nd":
+                    g[m] = ND[ver]
+            for minor in ([0, 1] if ver == "3" else [-1]):
+                out.append((ver, minor, g, spell(ver, minor, g)))
+                o = list(g)
+                rnd.shuffle(o)
+                out.append((ver, minor, g, spell(ver, minor, g, o)))
+    # the longest possible spelling: every metric with (one of) its longest value(s), ties broken both ways
+    if True:
+        for tie in (0, -1):
+            g = {}
+            for m in ORDER[ver]:
+                L = max(len(v) for v in VALS[ver][m])
+                g[m] = [v for v in VALS[ver][m] if len(v) == L][tie]
+            for minor in ([0, 1] if ver == "3" else [-1]):
+                out.append((ver, minor, g, spell(ver, minor, g)))
+    return out
+
+
 ALPHABET = list("AVCPRUISNLHMXDEFOTWYGacvnlx:/. 0134_-") + ["\t", "\n", "é", "А", "{", "}", '"', "\\", "\x00", "\U0001F600"]
 
 
